@@ -3,7 +3,7 @@
    Models: Fmt/Lex.v (literal lexer), Fmt/Format.v (integer / fraction /
    decimal printers, Brent cycle detection, termination test). *)
 From FendV Require Import Base.Prelude Fmt.Rat Fmt.Format Fmt.Lex Fmt.IntFmtProofs Fmt.LexProofs
-  Fmt.ExpansionProofs Fmt.RoundTripProofs.
+  Fmt.ExpansionProofs Fmt.RoundTripProofs Fmt.SepSwapProofs Fmt.BrentMinProofs.
 From Coq Require Import QArith.
 Open Scope N_scope.
 
@@ -57,17 +57,10 @@ Theorem C02_expansion_value : forall fuel base num den sep neg ip ip_text sign t
 Proof. exact expansion_value_lemma. Qed.
 Print Assumptions C02_expansion_value.
 
-(* Full statement (stretch, NOT proved): the pre-period mu and the period lam
-   returned by brents_algorithm are the MINIMAL ones, i.e. the rendering is
-   digit for digit the canonical expansion:
-     forall fuel base den x0 lam mu out, ... brents_algorithm fuel base den x0 = Ok (lam, mu, out) ->
-       (forall m l, 1 <= l -> iter_rem l (iter_rem m x0) = iter_rem m x0 -> mu <= m /\ (lam | l)).
-   Proved part: (mu, lam) is a genuine repetition of the remainder sequence
-   with lam >= 1 and the collected digits are the first mu+lam digits of the
-   long division.  Minimality is covered by the correspondence run against
-   the first-repeated-remainder expansion (gen/fmtlib.py expansion) on every
-   p/q with q <= 64 in every base. *)
-Theorem C02_expansion_canonical_partial : forall fuel base den x0 lam mu out,
+(* The pair (pre-period mu, period lam) found by Brent's algorithm is a
+   genuine repetition of the remainder sequence r_(i+1) = (b r_i) mod den, and
+   the collected digits are the first mu+lam digits of the long division. *)
+Theorem C02_expansion_cycle : forall fuel base den x0 lam mu out,
   2 <= base_val base <= 36 -> x0 < den ->
   brents_algorithm fuel base den x0 = Ok (lam, mu, out) ->
   1 <= lam /\
@@ -75,7 +68,21 @@ Theorem C02_expansion_canonical_partial : forall fuel base den x0 lam mu out,
   = iter_rem (base_val base) den (N.to_nat mu) x0 /\
   out = map dchar (iter_digits (base_val base) den (N.to_nat mu + N.to_nat lam) x0).
 Proof. exact expansion_cycle_lemma. Qed.
-Print Assumptions C02_expansion_canonical_partial.
+Print Assumptions C02_expansion_cycle.
+
+(* ... and it is the CANONICAL one (the stretch item, proved): whenever the
+   remainder sequence repeats, r_(m+l) = r_m with l >= 1, the pre-period found
+   is at most m and the period found divides l.  Hence the rendering
+   ip . P ( R ) is digit for digit the minimal expansion -- for any fuel on
+   which the run returns Ok. *)
+Theorem C02_expansion_canonical : forall fuel base den x0 lam mu out,
+  2 <= base_val base <= 36 -> x0 < den ->
+  brents_algorithm fuel base den x0 = Ok (lam, mu, out) ->
+  forall m l, (1 <= l)%nat ->
+    iter_rem (base_val base) den (m + l) x0 = iter_rem (base_val base) den m x0 ->
+    (N.to_nat mu <= m)%nat /\ exists k, l = (k * N.to_nat lam)%nat.
+Proof. exact brents_minimal. Qed.
+Print Assumptions C02_expansion_canonical.
 
 (* improper and mixed fractions read back as the fraction *)
 Theorem C02_fmt_fraction_value : forall x base sep neg mixed s ex, base_prefix_ok base = true ->
@@ -100,6 +107,13 @@ Theorem C02_roundtrip : forall fuel st base sep x s,
 Proof. exact fmt_value_roundtrip. Qed.
 Print Assumptions C02_roundtrip.
 
+(* Switching the separator style only swaps '.' and ',': same flag, same
+   errors, the text mapped through the swap -- every style, base, value. *)
+Theorem C02_sep_swap : forall fuel vexact st base x,
+  fmt_value fuel vexact st base SepComma x = swap2 (fmt_value fuel vexact st base SepDot x).
+Proof. exact sep_swap_lemma. Qed.
+Print Assumptions C02_sep_swap.
+
 (* non-vacuity *)
 Example C02_lit_inhabited :
   lit_ok (mklit BHex (Some (mkdrun (mkwd 1 false) [(WUnderscore, mkwd 15 true)]))
@@ -109,6 +123,10 @@ Example C02_lit_inhabited :
                    (RecOnly (mkdrun (mkwd 3 false) [])) (Some (true, ESMinus, mkdrun (mkwd 2 false) []))) = true
   /\ ok_follow [32; 43] = true.
 Proof. repeat split; reflexivity. Qed.
+
+Example C02_canonical_inhabited :
+  brents_algorithm 50 (BPlain 10) 12 1 = Ok (1, 2, [48; 56; 51]).   (* 1/12 = 0.08(3) *)
+Proof. vm_compute. reflexivity. Qed.
 
 Example C02_roundtrip_inhabited :
   fmt_value 100 true SFloat (BPlain 7) SepComma (mkrat true 22 7) = Ok ([45; 51; 44; 49], true)
